@@ -387,6 +387,50 @@ func ruleScanClass(c *Ctx) []Ob {
 
 func ruleAllocTriple(c *Ctx) []Ob {
 	s := newSink(c, "E9.alloc-triple")
+	// string / slice values handed to the caller are built over memory allocated for them (or, in the zero-copy routine,
+	// over the input): never over package-level storage, which every decoded object would share
+	for _, fn := range c.decodeClosureFns() {
+		for _, b := range fn.Blocks {
+			for _, ins := range b.Instrs {
+				call, ok := ins.(*ssa.Call)
+				if !ok || !(isBuiltin(call, "Slice") || isBuiltin(call, "String")) {
+					continue
+				}
+				var static string
+				seen := map[ssa.Value]bool{}
+				var walk func(v ssa.Value, d int)
+				walk = func(v ssa.Value, d int) {
+					if v == nil || seen[v] || d > 8 {
+						return
+					}
+					seen[v] = true
+					switch x := v.(type) {
+					case *ssa.Phi:
+						for _, e := range x.Edges {
+							walk(e, d+1)
+						}
+					case *ssa.Convert:
+						walk(x.X, d+1)
+					case *ssa.ChangeType:
+						walk(x.X, d+1)
+					case *ssa.IndexAddr:
+						if g := rootGlobal(x); g != nil {
+							static = globalKey(g)
+						}
+						walk(x.X, d+1)
+					case *ssa.FieldAddr:
+						if g := rootGlobal(x); g != nil {
+							static = globalKey(g)
+						}
+					case *ssa.Global:
+						static = globalKey(x)
+					}
+				}
+				walk(call.Call.Args[0], 0)
+				s.check(static == "", shortFn(fn)+":static-data", c.InstrPos(call), "value built over allocated (or input) memory", "a decoded string/binary is built over the package-level variable "+static+": every object decoded by the process shares that memory (a write through one decoded []byte changes the others)")
+			}
+		}
+	}
 	malloc := c.Func(pkgReflect, "(*tDecoder).Malloc")
 	if malloc == nil {
 		s.bad("roles", "-", "(*tDecoder).Malloc not found")
